@@ -511,6 +511,13 @@ def _eval_call (repo, module, e, env, cls):
         vals = list(args[0])
         return vals[0] if vals else args[1]
       except Exception: raise _Unknown()
+  if isinstance(fn, ast.Attribute) and isinstance(fn.value, ast.Name) and fn.value.id == 'struct' and fn.attr in ('pack', 'unpack', 'unpack_from', 'calcsize') and not e.keywords \
+     and 'struct' not in env.exact:
+    import struct as _struct
+    args = [eval_env2(repo, module, a, env, cls) for a in e.args]
+    if any(a is OPAQUE for a in args): raise _Unknown()
+    try: return getattr(_struct, fn.attr)(*args)
+    except Exception: raise _Unknown()
   if isinstance(fn, ast.Attribute) and fn.attr in _PURE_METHODS and not e.keywords:
     base = eval_env2(repo, module, fn.value, env, cls)
     if type(base) in (str, bytes, list, tuple, dict, set, frozenset):
